@@ -46,6 +46,8 @@ class BalWorld(object):
     self.last_active = None
     self.leave_since_settle = False
     self.had_down = False
+    self.n_load_driven = 0
+    self.prev_settle = None
     self.n_node_down = 0
     self.specs = {}
     self.steady = None
@@ -59,6 +61,10 @@ class BalWorld(object):
   def conn_spec(self, key, ordinal, total):
     spec = {'open_delay': self.cfg.get('open_delay', 0), 'open_sync': self.cfg.get('open_sync', True),
             'reopen': True}
+    slow = self.cfg.get('slow_members')
+    if slow and str(key) in slow:
+      # this member's handshake takes longer than the others'
+      spec.update({'open_delay': slow[str(key)], 'open_sync': False})
     if self.cfg.get('close_yield') is not None:
       spec['close_yield'] = self.cfg['close_yield']      # Close() takes a moment (yields to the hub)
     return spec
@@ -320,8 +326,22 @@ class BalWorld(object):
         REC.violation('C06', 'contracted_below_min',
                       'active set shrank from %d to %d with min_size %d and %d members' % (
                         self.last_active, na, ap['min_size'], len(servers)))
+    ss = self.serverset
+    now_ = {'loaded': ss.loaded, 'delivered': len(ss.delivered), 'load_driven': self.n_load_driven,
+            'quiet': ss.queue.empty() and ss.busy == 0}
+    prev_ = self.prev_settle
     if self.last_active is not None and na > self.last_active:
       REC.probe('aperture_expanded')
+      # growth needs a cause: load at or above max_load (an expansion asked for
+      # by _AdjustAperture), a member that failed / went down, a membership
+      # change, or a jitter round
+      if not self.had_down and not ap.get('jitter_min_sec') and prev_ is not None and prev_['loaded'] \
+          and prev_['quiet'] and now_['quiet'] and prev_['delivered'] == now_['delivered'] \
+          and prev_['load_driven'] == now_['load_driven']:
+        REC.violation('C06', 'grew_without_cause',
+                      'active set grew from %d to %d with no load-driven expansion, no failed or downed member, no membership change and jitter off' % (
+                        self.last_active, na), {})
+    self.prev_settle = now_
     if not self.had_down and not ap.get('jitter_min_sec') and na > max(ap['max_size'], ap['min_size']):
       REC.violation('C06', 'grew_beyond_max', 'active set has %d members, max_size %d' % (na, ap['max_size']))
     self.last_active = na
@@ -447,6 +467,7 @@ class BalWorld(object):
       def expand(*a, **kw):
         if _sys._getframe(1).f_code.co_name == '_AdjustAperture':
           REC.probe('load_driven_expansion')
+          self.n_load_driven += 1
           if self.lb._size >= max_size and self.lb._idle_endpoints:
             REC.violation('C06', 'grew_beyond_max',
                           'load-driven growth from %d active members, max_size %d' % (self.lb._size, max_size),
